@@ -1,7 +1,8 @@
 (* C02 proofs, part 7: arguments torch rejects for the batch shape are rejected by tensordict — for the operations whose
    guards are checked by tensordict itself before any entry is visited (transpose, unsqueeze, squeeze(dim), permute
-   with as many dims as the batch), whatever the entries are (even without entries).
-   For the other operations the statement is FALSE of /repo: see the *_refuted theorems (D4, D22, S5, C02-b/c/d/l). *)
+   with as many dims as the batch, and after fixes/C02: flatten, split(int), stack), whatever the entries are (even
+   without entries).  For the remaining operations only the per-entry torch calls validate the arguments: the statement
+   is false on a tensordict without entries (C02-l) and for split(list) with sizes summing beyond the dim (D4, reduced). *)
 From Coq Require Import ZArith List Bool Lia ZifyBool String.
 Import ListNotations.
 From TD Require Import Spec.PySlice Spec.C02_TorchShape Model.C02_ShapeOps Proofs.C02_FrameP Proofs.C02_OpsP.
@@ -20,6 +21,7 @@ Definition reject_domain (o : sop) (bs : list Z) : Prop :=
   | OUnsqueeze _ => True
   | OSqueeze (Some _) => bs <> []
   | OPermute dims => List.length dims = List.length bs
+  | OFlatten _ _ => True
   | _ => False
   end.
 
@@ -36,7 +38,8 @@ Qed.
 Theorem illegal_is_rejected : forall bs nm ents o,
   reject_domain o bs -> torch_shape o bs = Reject -> exists k, apply (Node bs nm ents) o = Raised k.
 Proof.
-  intros bs nm ents o Hd Ht. destruct o; cbn [reject_domain torch_shape] in *; try contradiction.
+  intros bs nm ents o Hd Ht.
+  destruct o as [dims|d0 d1|d|d|sh|sh|sh|sh|a b|d sizes|reps|r d|ds|bs1 n1 ds]; cbn [reject_domain torch_shape] in *; try contradiction.
   - (* permute *)
     unfold t_permute in Ht. rewrite Hd, Nat.eqb_refl in Ht. cbn [negb] in Ht.
     destruct (mapM (fun d => wrap_dim d (List.length bs)) dims) as [p|] eqn:E.
@@ -76,4 +79,61 @@ Proof.
     destruct ((Z.of_nat (List.length bs) <? (if d <? 0 then Z.of_nat (List.length bs) + d + 1 else d))
               || ((if d <? 0 then Z.of_nat (List.length bs) + d + 1 else d) <? 0)) eqn:A; [reflexivity|].
     destruct (d <? 0); lia.
+  - (* flatten: both dims go through _maybe_correct_neg_dim, then start < end *)
+    cbn [apply node_step]. change fixed_S5 with true. cbn [andb].
+    set (m := Z.of_nat (List.length bs)) in *.
+    set (s0 := if a <? 0 then m + a else a). set (e0 := if b <? 0 then m + b else b).
+    destruct ((s0 <? 0) || (m <=? s0) || (e0 <? 0) || (m <=? e0)) eqn:E; [exists EIndex; reflexivity|].
+    exists EValue.
+    assert (Hm : 0 < m) by lia.
+    assert (Hne : bs <> []) by (intros ->; cbn in m; lia).
+    unfold t_flatten in Ht. rewrite !wrap_dim_scalar_pos in Ht by (destruct bs; [congruence|cbn; lia]).
+    unfold wrap_dim in Ht. fold m in Ht.
+    destruct ((a <? - m) || (m <=? a)) eqn:Ea; [unfold s0 in E; destruct (a <? 0); lia|].
+    destruct ((b <? - m) || (m <=? b)) eqn:Eb; [unfold e0 in E; destruct (b <? 0); lia|].
+    cbn [bind] in Ht. destruct bs as [|b0 bs]; [congruence|].
+    destruct (Nat.ltb (Z.to_nat (if b <? 0 then b + m else b)) (Z.to_nat (if a <? 0 then a + m else a))) eqn:Elt.
+    + apply Nat.ltb_lt in Elt.
+      destruct ((b <? 0) && (e0 <? 0)) eqn:E2; [reflexivity|].
+      destruct (e0 <=? s0) eqn:E3; [reflexivity|]. unfold s0, e0 in *. destruct (a <? 0); destruct (b <? 0); lia.
+    + destruct (Nat.eqb _ _); discriminate.
+Qed.
+
+(* split(k): k < 0, k = 0 on a non-empty dim, or a dim out of range (after fixes/C02/D4) *)
+Theorem split_int_illegal_rejected : forall bs nm ents k d,
+  t_split_int bs k d = Reject -> exists e, td_split (Node bs nm ents) (inl k) d = Raised e.
+Proof.
+  intros bs nm ents k d Ht. cbn [td_split]. unfold t_split_int in Ht.
+  destruct bs as [|b0 bs0] eqn:Eb.
+  { exists EIndex. unfold correct_neg_dim. cbn [List.length Z.of_nat]. destruct (d <? 0); destruct ((_ <? 0) || (0 <=? _)) eqn:E; try reflexivity; lia. }
+  rewrite <- Eb in *.
+  destruct (wrap_dim d (List.length bs)) as [i|] eqn:Ei.
+  - rewrite (correct_neg_dim_wrap _ _ _ Ei). cbn [bindo bind] in *. unfold split_int_segments.
+    destruct (k <? 0) eqn:E0.
+    + exists ERuntime. destruct (0 <? k) eqn:E1; [lia|]. change fixed_D4 with true. cbv iota.
+      destruct ((k =? 0) && (nthZ bs i =? 0)) eqn:E2; [lia|]. reflexivity.
+    + destruct (k =? 0) eqn:E1; [|discriminate]. destruct (nthZ bs i =? 0) eqn:E2; [discriminate|].
+      exists ERuntime. destruct (0 <? k) eqn:E3; [lia|]. change fixed_D4 with true. cbv iota. rewrite ?E1, ?E2. reflexivity.
+  - exists EIndex. apply wrap_dim_reject in Ei. unfold correct_neg_dim.
+    destruct (((if d <? 0 then Z.of_nat (List.length bs) + d else d) <? 0)
+              || (Z.of_nat (List.length bs) <=? (if d <? 0 then Z.of_nat (List.length bs) + d else d))) eqn:A; [reflexivity|].
+    destruct (d <? 0); lia.
+Qed.
+
+(* torch.stack: operands of different batch sizes, or a dim outside [-rank-1, rank] (after fixes/C02/D22-C02b) *)
+Theorem stack_illegal_rejected : forall bs nm ents others d,
+  t_stack (map top_shape (Node bs nm ents :: others)) d = Reject ->
+  exists e, td_stack (Node bs nm ents :: others) d = Raised e.
+Proof.
+  intros bs nm ents others d Ht. cbn [td_stack stack_at map top_shape] in *. unfold t_stack in Ht.
+  destruct (forallb (fun t => match t with Node b _ _ => list_eqb b bs | Leaf _ => false end) others) eqn:Em; cbn [negb];
+    [|exists ERuntime; reflexivity].
+  assert (Hs : forallb (list_eqb bs) (map top_shape others) = true).
+  { rewrite forallb_forall in *. intros sh Hin. apply in_map_iff in Hin. destruct Hin as [o [<- Ho]]. specialize (Em o Ho).
+    destruct o as [|b n e]; [discriminate|]. cbn [top_shape]. apply list_eqb_eq in Em. subst. apply list_eqb_refl. }
+  rewrite Hs in Ht. destruct (wrap_dim d (S (List.length bs))) as [i|] eqn:Ei; [discriminate|]. apply wrap_dim_reject in Ei.
+  exists EIndex. change fixed_D22 with true. cbn [andb].
+  destruct (((if d <? 0 then Z.of_nat (List.length bs) + d + 1 else d) <? 0)
+            || (Z.of_nat (List.length bs) <? (if d <? 0 then Z.of_nat (List.length bs) + d + 1 else d))) eqn:A; [reflexivity|].
+  destruct (d <? 0); lia.
 Qed.
